@@ -14,6 +14,7 @@
 #include "common/rfc7230.h"
 #include "common/runner.h"
 
+#include <map>
 #include <pistache/client.h>
 
 using namespace Pistache;
@@ -67,6 +68,8 @@ struct ScriptedServer
     int openNow = 0, peakOpen = 0;
     std::set<int> answered; // tags whose response was sent completely
     std::set<int> dropTags, dropped; // requests the server reads and forgets (scenario / seen so far)
+    int tick = 0;                    // virtual time in 500 ms ticks
+    std::map<int, int> readAtTick;   // when each request reached the server
     void start()
     {
         lfd = ::socket(AF_INET, SOCK_STREAM | SOCK_NONBLOCK | SOCK_CLOEXEC, 0);
@@ -134,6 +137,7 @@ struct ScriptedServer
                 break;
             c.in.erase(0, m.consumed);
             int tag = atoi(m.target.c_str() + 3); // "/r/<i>"
+            readAtTick[tag] = tick;
             if (dropTags.count(tag))
                 dropped.insert(tag);
             else
@@ -303,7 +307,10 @@ static Exec run_one(const Scenario& sc, const std::vector<uint8_t>& prefix, vr::
             for (int i = 0; i < issued; ++i)
                 if (sc.timeoutMs[i] && !obs[i].fulfilled && !obs[i].rejected)
                     waitingTimeout = true;
-            if (waitingTimeout && ticks < 6)
+            int withTimeout = 0;
+            for (int i = 0; i < sc.n; ++i)
+                withTimeout += sc.timeoutMs[i] != 0;
+            if (waitingTimeout && ticks < 6 + 3 * std::max(0, withTimeout - 1))
                 en.push_back(500);
             if (en.empty())
             {
@@ -388,6 +395,7 @@ static Exec run_one(const Scenario& sc, const std::vector<uint8_t>& prefix, vr::
             {
                 trace += "tick ";
                 ++ticks;
+                srv.tick = ticks;
                 sim::tick(500);
             }
             sim::bump_activity();
@@ -432,15 +440,12 @@ static Exec run_one(const Scenario& sc, const std::vector<uint8_t>& prefix, vr::
             }
             else if (srv.answered.count(i) && !o.fulfilled && !(sc.timeoutMs[i] && o.rejected))
                 ctx.violation(std::string("c15:answered-request-not-fulfilled:") + (o.rejected ? "rejected" : "pending"), detail(w));
-            else if ((sc.beh[i] == B_NEVER || sc.beh[i] == B_DROP) && sc.timeoutMs[i] && ticks * 500 > sc.timeoutMs[i] && !o.rejected && issued > i)
+            else if (sc.timeoutMs[i] && !srv.answered.count(i) && !o.rejected && !o.fulfilled && srv.readAtTick.count(i)
+                     && (ticks - srv.readAtTick[i]) * 500 > sc.timeoutMs[i])
             {
-                // only a request that actually reached an established connection has a running time-out
-                bool sent = srv.dropped.count(i) != 0;
-                for (auto& c : srv.conns)
-                    for (int t : c.pendingTags)
-                        sent |= t == i;
-                if (sent)
-                    ctx.violation("c15:timed-out-request-not-rejected", detail(w));
+                // the request reached the server over an established connection, was not answered (never, dropped, or
+                // stuck behind an unanswered one) and more than its time-out has passed since
+                ctx.violation("c15:timed-out-request-not-rejected", detail(w + ",\"reached_server_at_tick\":" + std::to_string(srv.readAtTick[i]) + ",\"ticks\":" + std::to_string(ticks)));
             }
             ctx.outcome(std::string(kBehNames[sc.beh[i]]) + (sc.timeoutMs[i] ? "/timeout" : "") + " -> " + (o.fulfilled ? "fulfilled" : o.rejected ? "rejected" : "pending"));
         }
